@@ -257,16 +257,12 @@ def finish_c03(ctx, facts):
     rules_C02.header_loop_rules(ctx, "C03.6")
     # ---- C03.4 the fused reader itself
     f = FRM.fmodel(facts).nr0
-    insts = [i for i in facts.instances_of(f.id) if not i["generic"] and "SequentialReader<" in i["name"]]
-    ctx.require(len(insts) == 1, "C03.4: connection instance of new_request")
     n = 0
-    for e in insts[0]["edges"]:
-        if e["k"] == "unsize" and e["info"].get("vtable") and norm_dyn(e["info"]["dyn"]) == norm_dyn("dyn std::io::Read + std::marker::Send"):
-            ty = e["info"]["vtable"]
-            if "util::sequential::SequentialReader<" in ty and not ty.startswith("util::sequential::SequentialReader<"):
-                n += 1
-                ctx.ob("C03.4", "%s|fused|%s" % (f.id, short(ty)[:50]), "a framed body reader is wrapped in FusedReader (after its end it must stay at end-of-stream; a chunk decoder would otherwise parse following bytes as a chunk header)",
-                       ty.startswith("util::fused_reader::FusedReader<"), f.loc(e["bb"]))
+    for g_, bb_, ty in shared.boxed_body_readers(facts):
+        if "util::sequential::SequentialReader<" in ty and not ty.startswith("util::sequential::SequentialReader<"):
+            n += 1
+            ctx.ob("C03.4", "%s|fused|%s" % (f.id, short(ty)[:50]), "a framed body reader is wrapped in FusedReader (after its end it must stay at end-of-stream; a chunk decoder would otherwise parse following bytes as a chunk header)",
+                   ty.startswith("util::fused_reader::FusedReader<"), g_.loc(bb_))
     ctx.floor("C03.4 framed readers", n, 2)
     import fused_rules
     fused_rules.fused_rules(ctx, "C03.4", "C03.4", None)
